@@ -309,7 +309,7 @@ def main():
             "checker_cmd": f"cd lean && lake build Micm && lake env lean .lake/audit_{pid}.lean   (via tools/check.py {pid})",
             "trusted_base": ["Lean 4.33 kernel", "axioms: propext, Classical.choice, Quot.sound only (audited per theorem)",
                              "tools/gen_lean.py translator", "correspondence harness (differential, bit-exact on double)",
-                             "model files lean/Micm/Model/*.lean stand for the C++ source"],
+                             "model files lean/Micm/Model/*.lean stand for the C++ source"] + P.get("trusted_extra", []),
             "theorems": thms,
             "leanchecker": obl.get("leanchecker", []),
             "partial": [t["name"] for t in thms if t["partial"]],
